@@ -498,6 +498,9 @@ type Plan struct {
 	Prop     string
 	Checks   []Check
 	Suppress Suppressor
+	// After runs after the rapid-driven checks (enumerators and other
+	// custom engines); it reports through Count/CountRaw and Fail.
+	After func(t *testing.T)
 }
 
 // safeProp runs a property function, turning a panic in the harness or in the
@@ -613,9 +616,27 @@ func Run(t *testing.T, p Plan) {
 			mu.Unlock()
 		})
 	}
+	if p.After != nil && (c.Only == "" || c.Only == "after") {
+		p.After(t)
+	}
 	mu.Lock()
 	stats.Complete = true
 	mu.Unlock()
+}
+
+// Fail records a violation found by a custom engine (enumerator): it writes
+// the replay file, unless the case matches an open finding's signature.
+func Fail(t *testing.T, p Plan, check string, c Case, err error) bool {
+	if p.Suppress != nil {
+		if id, ok := p.Suppress(check, c, err); ok {
+			Label(check, "suppressed_by_finding:"+id, 1)
+			return false
+		}
+	}
+	path := WriteReplay(p.Prop, check, &c, err.Error())
+	AddViolation(check, path, err.Error())
+	t.Errorf("%s/%s violated: %v\ncase: %s", p.Prop, check, err, c.Describe())
+	return true
 }
 
 func runReplay(t *testing.T, p Plan) {
